@@ -244,9 +244,12 @@ _Code.visit = lambda self, fn: None
 I.register_model(_Code.visit, _code_visit)
 
 
-def _ctx_visit_objects(it, self, fn):
+def _ctx_visit_objects(it, self, fn, include_always_expr=True):
+    # events of the hoisted always expression are delivered like those of the process unless the caller excludes them
     it.order.append("objects")
-    for obj, flags in self.fields["f_events"]:
+    for obj, flags, in_always in self.fields["f_events"]:
+        if in_always and not include_always_expr:
+            continue
         it.call(fn, [obj, flags], {})
 
 
@@ -262,7 +265,11 @@ def whole_spec(events):
             ctx_block, pushed_block, other = out
             want_res = []
             want_push = []
-            for obj, flags in real_self.fields["f_events"]:
+            for obj, flags, in_always in real_self.fields["f_events"]:
+                if in_always:
+                    # the always expression is emitted as a concurrent block OUTSIDE the process: an object it drives
+                    # must not get a second driver (the reset / push-default assignment inside the process)
+                    continue
                 root = obj.fields["_root"]
                 if flags & AF.PUSH and not any(x is root for x in want_push):
                     want_push.append(root)
@@ -290,14 +297,15 @@ def ctx_shape(events):
             return roots[tag]
 
         evs = []
-        for tag, kind, has_default, noreset, flags, view in events:
+        for tag, kind, has_default, noreset, flags, view, *in_always in events:
+            in_always = bool(in_always and in_always[0])
             r = root(tag, kind, has_default, noreset)
             if view:
                 v = SObj(kind, f_tag=tag + "-view", _ref_spec=["slice"], f_has_default=False, _noreset=not noreset, f_default=Opaque("view-default"))
                 v.fields["_root"] = r
-                evs.append((v, flags))
+                evs.append((v, flags, in_always))
             else:
-                evs.append((r, flags))
+                evs.append((r, flags, in_always))
         code = SObj(_Code, f_stmts=[SObj(ir._ResetContext, _frame="f"), SObj(ir._ResetPushed, _frame="f"), SObj(ir.SignalAssignment, _target=Opaque("t"), _source=Opaque("s"), _frame=None)])
         return SObj(ir.Sequential, _code=code, f_events=evs)
 
@@ -315,6 +323,9 @@ STREAMS = {
     "read-only": [("a", Signal, True, False, AF.READ, False)],
     "variable-write+signal-push": [("v", Variable, True, False, AF.WRITE, False), ("s", Signal, True, False, AF.PUSH, False)],
     "same-root-twice": [("a", Signal, True, False, AF.WRITE, False), ("a", Signal, True, False, AF.PUSH, True)],
+    "always-expression-writes-defaulted-signal": [("f", Signal, True, False, AF.WRITE, False, True), ("q", Signal, True, False, AF.WRITE, False)],
+    "always-expression-only": [("f", Signal, True, False, AF.WRITE, False, True)],
+    "always-expression-writes-slice+process-reads": [("f", Signal, True, False, AF.WRITE, True, True), ("f", Signal, True, False, AF.READ, False)],
 }
 
 con = contract("cohdl._core._ir._repr:Sequential._pushed_resettable_signals", PROPS)
@@ -328,4 +339,114 @@ for name, events in STREAMS.items():
         it.order = []
 
     c.setup = setup
+    if name.startswith("always-"):
+        c.custom_replay = "contracts.c04_reset.replay_always_reset"
     con.cases.append(c)
+
+
+_ALWAYS_RESET_DESIGN = '''
+import re
+import cohdl
+from cohdl import std, Entity, Port, Bit, Unsigned, always
+class AlwaysReset(Entity):
+    clk = Port.input(Bit)
+    rst = Port.input(Bit)
+    inp = Port.input(Bit)
+    q = Port.output(Unsigned[4], default=0)
+    flag = Port.output(Bit, default=False)
+    def architecture(self):
+        @std.sequential(std.Clock(self.clk), std.Reset(self.rst))
+        def proc():
+            with always:
+                self.flag <<= self.inp
+            self.q <<= self.q + 1
+vhdl = std.VhdlCompiler.to_string(AlwaysReset)
+body = vhdl[vhdl.index("\\nbegin"):]
+process = re.search(r"proc: process\\(.*?end process;", body, flags=re.S).group(0)
+print("IN-PROCESS", re.findall(r"buffer_flag\\s*<=[^;]*;", process))
+print("OUTSIDE", re.findall(r"buffer_flag\\s*<=[^;]*;", body.replace(process, "")))
+'''
+
+
+def replay_always_reset(payload):
+    from contracts.c06_extra import _run_design
+
+    rc, out = _run_design(_ALWAYS_RESET_DESIGN)
+    return {"reproduced": rc == 0 and "IN-PROCESS ['buffer_flag" in out and "OUTSIDE ['buffer_flag" in out,
+            "detail": "signal with a default assigned in `with cohdl.always:` of a context with reset: " + out[-250:]}
+
+
+# ---- Sequential.visit_objects: what is delivered, and the switch that leaves the hoisted always expression out -----------
+# The always expression of a sequential context is emitted as a concurrent block OUTSIDE the process.  Callers that ask "what does
+# THE PROCESS drive" (reset collection above, the single-driver check of EntityTemplate.__init__) pass include_always_expr=False;
+# every other visitor gets the objects of the always expression, of the sensitivity list (one READ each) and of the body.
+from cohdl._core._intrinsic import _SensitivityAll, _SensitivityList  # noqa: E402
+
+
+class _CodeLog:
+    """code block stand-in: visit_objects is recorded"""
+
+
+_CodeLog.visit_objects = lambda self, operation: None
+I.register_model(_CodeLog.visit_objects, lambda it, self, operation: it.order.append(("code", self.fields["f_tag"])))
+C.inline("cohdl._core._ir._repr:Context.code")
+C.inline("cohdl._core._ir._repr:Context.visit_objects")
+
+
+def _visitor(obj, access):
+    pass
+
+
+I.register_model(_visitor, lambda it, obj, access: (it.order.append(("op", obj, access)), obj)[1])
+
+
+def seq_shape(has_always, sens):
+    def make(env):
+        o = SObj(ir.Sequential, _code=SObj(_CodeLog, f_tag="body"))
+        o.fields["_always_expr"] = SObj(ir.Concurrent, _code=SObj(_CodeLog, f_tag="always")) if has_always else None
+        o.fields["_sensitivity"] = SObj(_SensitivityList, signals=[Opaque("s0"), Opaque("s1")]) if sens == "list" else SObj(_SensitivityAll)
+        return o
+
+    return Built([], make, lambda a: "<sequential>", lambda a: None)
+
+
+def seq_visit_spec(has_always, sens, include):
+    def spec(sx, self, operation, *rest, **kw):
+        it = sx.it
+        real_self = sx.real_args[0]
+
+        def holds(res):
+            want = []
+            if has_always and include:
+                want.append(("code", "always"))
+            if sens == "list":
+                want += [("op", s, AF.READ) for s in real_self.fields["_sensitivity"].fields["signals"]]
+            want.append(("code", "body"))
+            got = it.order
+            return res is None and len(got) == len(want) and all(len(g) == len(w) and all(a is b or a == b for a, b in zip(g, w)) for g, w in zip(got, want))
+
+        return C.Pred(holds, "always expression (unless excluded), sensitivity signals (READ), body -- each once, in this order")
+
+    return spec
+
+
+con = contract("cohdl._core._ir._repr:Sequential.visit_objects", PROPS + ("C07",))
+for has_always in (False, True):
+    for sens in ("list", "all"):
+        for how in ("default", "include", "exclude"):
+            OP = Built([], lambda env: _visitor, lambda a: "<operation>", lambda a: None)
+            kwargs = {} if how == "default" else {"include_always_expr": Built([], (lambda v: lambda env: v)(how == "include"), lambda a: "<flag>", lambda a: None)}
+            c = Case(f"{'always+' if has_always else ''}sensitivity-{sens}:{how}", [seq_shape(has_always, sens), OP], seq_visit_spec(has_always, sens, how != "exclude"), kwargs=kwargs)
+            c.native = False
+
+            def setup(it, ctx, args, env):
+                it.order = []
+
+            c.setup = setup
+            # case-level (other contract modules register global event-stream models for every visit_objects): the two trivial
+            # accessors of ir.Context, as they are written (`self._code.visit_objects(operation)`, `return self._code`)
+            c.models = [(ir.Context.__dict__["visit_objects"], lambda it, self, operation: it.order.append(("code", self.fields["_code"].fields["f_tag"]))),
+                        (ir.Context.__dict__["code"], lambda it, self: self.fields["_code"])]
+            if has_always:
+                c.custom_replay = "contracts.c04_reset.replay_always_reset"
+            con.cases.append(c)
